@@ -155,7 +155,8 @@ def link_ll(bcs, out):
     return out
 
 
-def build_library_ir(target='le', harness_srcs=(), workdir=None, repo=None, defs=(), suffix='', debug=True):
+def build_library_ir(target='le', harness_srcs=(), workdir=None, repo=None, defs=(), suffix='', debug=True,
+                     opt='-O0', extra=()):
     """Compile every library unit (+ optional harness C files) for `target`,
     link, and return (path of linked .ll, list of (lib, relpath))."""
     repo = repo or REPO
@@ -166,10 +167,40 @@ def build_library_ir(target='le', harness_srcs=(), workdir=None, repo=None, defs
         if not os.path.exists(s):
             raise BuildError('library source listed in CMakeLists.txt is missing: ' + s)
     bcs = compile_units(srcs + list(harness_srcs), os.path.join(workdir, 'bc_' + target + suffix),
-                        target=target, std=std, repo=repo, defs=defs, debug=debug)
+                        target=target, std=std, repo=repo, defs=defs, debug=debug, opt=opt, extra=extra)
     out = os.path.join(workdir, 'lib_%s%s.ll' % (target, suffix))
-    link_ll(bcs, out)
+    try:
+        link_ll(bcs, out)
+    except BuildError as e:
+        if 'multiply defined' not in str(e):
+            raise
+        # the same external symbol is defined in both shared libraries.  That links and loads fine - and at run time
+        # every reference, in either library, binds to the definition of the library that comes first in the link
+        # line (ELF symbol interposition; the project links `open1722 ... open1722custom`).  Model exactly that: link
+        # each library on its own, then let the first library's definitions override the second's.
+        per = {}
+        for (lib, _), bc in zip(units, bcs):
+            per.setdefault(lib, []).append(bc)
+        libs = [l for l in LIB_TARGETS if l in per]
+        parts = []
+        for lib in libs:
+            pl = os.path.join(workdir, 'only_%s_%s%s.bc' % (lib, target, suffix))
+            rc, so, se = run([LLVM_LINK, '-o', pl] + per[lib])
+            if rc != 0:
+                raise BuildError('llvm-link failed inside library %s:\n%s' % (lib, se[-3000:]))
+            parts.append(pl)
+        extra_bcs = bcs[len(units):]
+        cmd = [LLVM_LINK, '-S', '-o', out] + list(reversed(parts[1:])) + extra_bcs
+        for pth in parts[:1]:
+            cmd += ['--override', pth]
+        rc, so, se = run(cmd)
+        if rc != 0:
+            raise BuildError('llvm-link failed:\n' + se[-4000:])
+        INTERPOSED.append(str(e).strip().split('\n')[-1][-200:])
     return out, units
+
+
+INTERPOSED = []
 
 
 def per_unit_ll(target='le', workdir=None, repo=None):
